@@ -67,8 +67,12 @@ BaseTags == {
   TagE("Measurement-event", "Event", {<<"suggestedTag", "Data-property">>}, "base", FALSE),
   TagE("Item", "", {<<"extensionAllowed", TRUEV>>}, "base", FALSE),
   TagE("Object", "Item", {<<"suggestedTag", "Sensory-presentation">>}, "base", FALSE) }
-BaseUCs == { [name |-> "timeUnits", attrs |-> {<<"defaultUnits", "s">>}, desc |-> "none"] }
+\* two partner unit classes: one inside the partner's list and its LAST one (the writer walks them in order)
+BaseUCs == { [name |-> "timeUnits", attrs |-> {<<"defaultUnits", "s">>}, desc |-> "none"],
+             [name |-> "weightUnits", attrs |-> {<<"defaultUnits", "g">>}, desc |-> "none"] }
 BaseUnits == {
+  [name |-> "gram", uclass |-> "weightUnits", attrs |-> {<<"SIUnit", TRUEV>>, <<"conversionFactor", "1.0">>}, desc |-> "none"],
+  [name |-> "g", uclass |-> "weightUnits", attrs |-> {<<"SIUnit", TRUEV>>, <<"unitSymbol", TRUEV>>, <<"conversionFactor", "1.0">>}, desc |-> "none"],
   [name |-> "second", uclass |-> "timeUnits", attrs |-> {<<"SIUnit", TRUEV>>, <<"conversionFactor", "1.0">>}, desc |-> "none"],
   [name |-> "s", uclass |-> "timeUnits", attrs |-> {<<"SIUnit", TRUEV>>, <<"unitSymbol", TRUEV>>, <<"conversionFactor", "1.0">>}, desc |-> "none"] }
 BaseOthers == {
